@@ -679,9 +679,10 @@ func (g *Gen) loopModified(li *loopInfo) (map[string][]ssa.Value, bool) {
 		case *ssa.IndexAddr:
 			switch bt := x.X.Type().Underlying().(type) {
 			case *types.Slice:
-				add(g.arrHeap(bt.Elem()), nil)
+				// the backing array of a slice value that does not change in the loop is a known base
+				add(g.arrHeap(bt.Elem()), x.X)
 			case *types.Pointer:
-				add(g.arrHeap(bt.Elem().Underlying().(*types.Array).Elem()), nil)
+				add(g.arrHeap(bt.Elem().Underlying().(*types.Array).Elem()), x.X)
 			}
 		case *ssa.Alloc:
 			et := x.Type().Underlying().(*types.Pointer).Elem()
@@ -1085,6 +1086,11 @@ func (g *Gen) loopFrame(li *loopInfo, heap, oldT, newT string, entry *State, bas
 		v := g.val(b)
 		if v.Addr != nil {
 			return
+		}
+		if v.T != nil {
+			if _, isSlice := v.T.Underlying().(*types.Slice); isSlice {
+				v = Val{Sort: "Int", S: "(sl.ref " + v.S + ")"}
+			}
 		}
 		v = g.ghostOwner(v, owner)
 		exc = append(exc, fmt.Sprintf("(not (= r %s))", v.S))
